@@ -6,7 +6,7 @@ import ast
 from .. import sym as S
 from ..engine import HOLDS, UNDECIDED, VIOLATED, Check
 from ..loader import AnalysisError
-from ..rulelib import (all_alternatives_are_field, appends_in, cmp_subject, decision_fields, decision_on, calls_named, carried_with_entry, check_const, check_layout, check_typestate,
+from ..rulelib import (_byte_to_sector, _typestate, _ValSub, all_alternatives_are_field, appends_in, cmp_subject, decision_fields, decision_on, calls_named, carried_with_entry, check_const, check_layout, check_typestate,
                        conds_sym, eval_conds, fld, insts_in_func, inst_attr, loop_carried, loops_of, same_handle,
                        self_stores, spec_expr, zeros_len)
 
@@ -233,34 +233,3 @@ def run(chk: Check):
     chk.require("K-SPLIT", 4)
     chk.require("K-TYPESTATE", 3)
     chk.require("K-LAYOUT", 3)
-
-
-def _ValSub(term, value, seed=1):
-    """Valuation that forces the value of one (possibly non-leaf) term."""
-    return S.Valuation(seed, override={term: value})
-
-
-def _byte_to_sector(chk: Check, rel, qual, sector_size_term, names=None):
-    """_read(offset, length) -> read_sectors(offset // S, ceil(length / S))"""
-    R = chk.R
-    ctx = chk.func(rel, qual)
-    env = {"offset": ("p", ctx.qual, 1), "length": ("p", ctx.qual, 2), "SS": sector_size_term}
-    calls = [n for n in ast.walk(ctx.func) if isinstance(n, ast.Call) and isinstance(n.func, ast.Attribute)
-             and n.func.attr == "read_sectors"]
-    if not calls:
-        chk.undecided("K-FORMULA", "byte-to-sector", ctx.func, "no read_sectors call in the byte interface")
-        return
-    c = calls[0]
-    chk.formula("K-FORMULA", "byte-to-sector:sector", c, R.expr(ctx, c.args[0]), spec_expr("offset // SS", env))
-    chk.formula("K-FORMULA", "byte-to-sector:count", c, R.expr(ctx, c.args[1]), spec_expr("ceildiv(length, SS)", env))
-    rets = [n for n in ast.walk(ctx.func) if isinstance(n, ast.Return)]
-    ok = len(rets) == 1 and rets[0].value is c
-    chk.decide(ok, "K-FORMULA", "byte-to-sector:returns-sector-read", ctx.func,
-               "the byte interface returns exactly the sector read's result")
-
-
-def _typestate(chk: Check, ctx, tag, allow_end=False, extra=()):
-    res = check_typestate(chk, ctx, lambda h: True, tag, allow_end=allow_end, extra_reads=extra)
-    for call, ok, why, h in res:
-        chk.decide(ok, "K-TYPESTATE", f"{tag}:seek-before-read", call, why)
-    return res
